@@ -253,6 +253,34 @@ Fixpoint finalize_methods (fixed : bool) (classes_rev : list (option N)) (last l
       finalize_methods fixed rest idx len
   end.
 
+(* ---------------------------------------------------------------- module/macho.rs parse_file / parse_fat recursion
+   What the bytes at a position look like to FileKind::parse: a thin Mach-O, a fat header whose arches point at other
+   positions (attacker-controlled offsets; position 0 is the file itself), or something else.  parse_file on a fat
+   file calls parse_file on every arch (fat_arch_to_file_value) with add_file_to_data = true.  Fuel stands for the
+   stack: None = the recursion did not end within `fuel` frames.  `fixed` = after fix 67eeeeb (a fat file met while
+   parsing the members of a fat file is not followed). *)
+Inductive mfile : Type := MThin | MFat (arches : list N) | MOther.
+
+Fixpoint macho_parse (fixed : bool) (files : N -> mfile) (fuel : nat) (nested : bool) (pos : N) : option unit :=
+  match fuel with
+  | O => None
+  | S fuel' =>
+      match files pos with
+      | MThin => Some tt
+      | MOther => Some tt
+      | MFat arches =>
+          if fixed && nested then Some tt
+          else (fix go (l : list N) : option unit :=
+                  match l with
+                  | [] => Some tt
+                  | a :: l' => match macho_parse fixed files fuel' true a with
+                               | Some _ => go l'
+                               | None => None
+                               end
+                  end) arches
+      end
+  end.
+
 (* ---------------------------------------------------------------- case term for the `kernel` cases of C09 *)
 Definition optN_eqb (a b : option N) : bool := opt_eqb N.eqb a b.
 
